@@ -31,6 +31,21 @@ pub mod ax_cmp {
     pub broadcast proof fn axiom_q_cmp_refl(a: Rational) ensures #[trigger] q_cmp(a, a) == Ordering::Equal { }
     #[verifier::external_body]
     pub broadcast proof fn axiom_f_cmp_refl(a: f64) ensures #[trigger] f_total_cmp(a, a) == Ordering::Equal { }
+    // an integer against a rational, through the rational's floor
+    #[verifier::external_body]
+    pub broadcast proof fn axiom_q_floor_cmp(k: int, r: Rational)
+        ensures (#[trigger] q_cmp(q_of_int(k), r) is Less) == (k < q_floor(r) || (k == q_floor(r) && !q_is_int(r))),
+                (q_cmp(q_of_int(k), r) is Equal) == (k == q_floor(r) && q_is_int(r)) { }
+}
+// num-order's provided method num_cmp, and dashu's RBig::trunc / is_int (ASSUMED exact)
+pub uninterp spec fn q_is_int(a: Rational) -> bool;
+pub open spec fn q_trunc(a: Rational) -> int { if q_sign(a) >= 0 || q_is_int(a) { q_floor(a) } else { q_floor(a) + 1 } }
+pub trait NumCmp<Rhs> { fn num_cmp(&self, o: &Rhs) -> Ordering; }
+impl NumCmp<Integer> for i64 { #[verifier::external_body] fn num_cmp(&self, o: &Integer) -> (r: Ordering) ensures r == int_cmp(*self as int, o.v()) { unimplemented!() } }
+impl NumCmp<i64> for Integer { #[verifier::external_body] fn num_cmp(&self, o: &i64) -> (r: Ordering) ensures r == int_cmp(self.v(), *o as int) { unimplemented!() } }
+impl Rational {
+    #[verifier::external_body] pub fn trunc(&self) -> (r: Integer) ensures r.v() == q_trunc(*self) { unimplemented!() }
+    #[verifier::external_body] pub fn is_int(&self) -> (r: bool) ensures r == q_is_int(*self) { unimplemented!() }
 }
 
 
